@@ -66,7 +66,10 @@ func (ra *RouterAdvertisement) marshal() ([]byte, error) {
 		return nil, err
 	}
 
-	b := make([]byte, raLen)
+	// ICMPv6 header (type, code, checksum - filled in by the sender) followed by the RA body
+	msg := make([]byte, 4+raLen)
+	msg[0] = byte(ipv6.ICMPTypeRouterAdvertisement)
+	b := msg[4:]
 
 	b[0] = ra.CurrentHopLimit
 
@@ -100,9 +103,7 @@ func (ra *RouterAdvertisement) marshal() ([]byte, error) {
 		return nil, err
 	}
 
-	b = append(b, ob...)
-
-	return b, nil
+	return append(msg, ob...), nil
 }
 
 /**
@@ -164,8 +165,9 @@ type RouterSolicitation struct {
 func (rs *RouterSolicitation) Type() ipv6.ICMPType { return ipv6.ICMPTypeRouterSolicitation }
 
 func (rs *RouterSolicitation) marshal() ([]byte, error) {
-	// b contains reserved area.
-	b := make([]byte, rsLen)
+	// ICMPv6 header (type, code, checksum - filled in by the sender) followed by the reserved area.
+	b := make([]byte, 4+rsLen)
+	b[0] = byte(ipv6.ICMPTypeRouterSolicitation)
 
 	ob, err := marshalOptions(rs.Options)
 	if err != nil {
